@@ -20,6 +20,12 @@ type control struct {
 	ExpectRule      string `json:"expect_rule"`
 	ExpectConstruct string `json:"expect_construct,omitempty"` // substring
 	Why             string `json:"why,omitempty"`
+	// Edits: further edits applied together with File/Find/Replace (multi-site variants).
+	Edits []struct {
+		File    string `json:"file"`
+		Find    string `json:"find"`
+		Replace string `json:"replace"`
+	} `json:"edits,omitempty"`
 }
 
 type controlResult struct {
@@ -51,7 +57,30 @@ func runControls(base *Ctx, id string, baseRep *Report) []controlResult {
 			continue
 		}
 		edited := strings.Replace(string(src), c.Find, c.Replace, 1)
-		ctx := &Ctx{Repo: base.Repo, Tier: "quick", Overlay: map[string][]byte{abs: []byte(edited)}, mods: map[string]*Module{}}
+		overlay := map[string][]byte{abs: []byte(edited)}
+		skip := false
+		for _, e := range c.Edits {
+			a2 := filepath.Join(base.Repo, e.File)
+			cur, ok := overlay[a2]
+			if !ok {
+				b, err := os.ReadFile(a2)
+				if err != nil {
+					skip = true
+					break
+				}
+				cur = b
+			}
+			if !strings.Contains(string(cur), e.Find) {
+				skip = true
+				break
+			}
+			overlay[a2] = []byte(strings.Replace(string(cur), e.Find, e.Replace, 1))
+		}
+		if skip {
+			out = append(out, controlResult{c.Name, "skipped", "search text of a secondary edit not present (source changed); control not applicable"})
+			continue
+		}
+		ctx := &Ctx{Repo: base.Repo, Tier: "quick", Overlay: overlay, mods: map[string]*Module{}}
 		rep := runProp(ctx, id)
 		fired := false
 		detail := ""
